@@ -320,6 +320,22 @@ class Path:
         self.events = st.events
 
 
+class Segment:
+    """One explored execution segment: events[start:] of out.st (a function activation or a loop)."""
+    __slots__ = ("out", "start", "level", "name")
+
+    def __init__(self, out, start, level, name):
+        self.out, self.start, self.level, self.name = out, start, level, name
+
+    @property
+    def st(self):
+        return self.out.st
+
+    @property
+    def events(self):
+        return self.out.st.events
+
+
 # outcome kinds: 'val', 'brk', 'cont', 'ret', 'panic'
 
 
@@ -351,6 +367,11 @@ class Interp:
         self._load_phf()
         self.from_table = self._load_from_impl()
         self.loop_assigned_cache = {}
+        self.checkers = []      # segment checkers: fn(I, Segment)
+        self.obs = {}           # (rule, key) -> dict(ok, site, detail, n)
+        self.prune = True
+        self.prune_min = 3
+        self.stats = {"activations": 0, "segments": 0, "pruned": 0, "paths_before_prune": 0}
 
     # ---- static tables from the facts ---------------------------------
     def _load_phf(self):
@@ -397,6 +418,103 @@ class Interp:
         if self.steps > self.budget * 400:
             raise Budget("step budget exhausted")
 
+    # ---- obligations recorded by segment checkers -----------------------------
+    def ob(self, rule, key, ok, site="", detail=""):
+        k = (rule, key)
+        cur = self.obs.get(k)
+        if cur is None:
+            self.obs[k] = {"rule": rule, "key": key, "ok": bool(ok), "site": site, "detail": detail, "n": 1}
+        else:
+            cur["n"] += 1
+            if cur["ok"] and not ok:
+                cur.update(ok=False, site=site, detail=detail)
+
+    def sink(self, outs, start, level, name):
+        """Hand every explored segment (before pruning) to the checkers."""
+        if not self.checkers:
+            return
+        for o in outs:
+            seg = Segment(o, start, level, name)
+            self.stats["segments"] += 1
+            for c in self.checkers:
+                c(self, seg)
+
+    IFACE = frozenset(["push", "pop", "pop_empty", "stack_insert", "stack_truncate", "stack_empty_seen", "mode_update",
+                       "ckpt", "emit", "insert_token", "error", "pending", "nesting", "lasttok_write",
+                       "lookbehind_mut", "panic", "cursor_restore", "buffer_rollback", "stack_replaced",
+                       "field_write", "history_read", "advance_at_eof", "phf_lookup"])
+
+    def out_sig(self, o, start, fidx, with_frame):
+        st = o.st
+        evs = []
+        nl_pending = False
+        for e in st.events[start:]:
+            k = e.kind
+            if k == "consume":
+                if e.d.get("chars") is None:
+                    nl_pending = True
+                else:
+                    nl_pending = any(st.cf(c).may_be("\n") for c in e.chars)
+            elif k == "add_line":
+                nl_pending = False
+            if k in self.IFACE:
+                d = e.d
+                if k == "emit":
+                    evs.append((k, e.site, repr(d["channel"]), repr(d["type"]), repr(d["payload"])[:40],
+                                repr(d["byte"]), d.get("pos")))
+                elif k == "error":
+                    evs.append((k, e.site, repr(d.get("err")), d.get("ckpt")))
+                elif k in ("push", "pop"):
+                    evs.append((k, e.site, repr(d.get("mode")), d.get("known")))
+                elif k == "mode_update":
+                    evs.append((k, e.site, repr(d.get("path")), repr(d.get("value"))))
+                elif k == "ckpt":
+                    evs.append((k, e.site, d.get("op"), d.get("prior")))
+                elif k == "pending":
+                    evs.append((k, e.site, d.get("op"), repr(d.get("value"))))
+                elif k == "panic":
+                    evs.append((k, e.site, d.get("msg")))
+                else:
+                    evs.append((k, e.site))
+        main = st.cursors["main"]
+        strm = self.stream_of(st, "main")
+        la = tuple(repr(st.cs.get(("LA", strm, main.pos + i))) for i in (0, 1))
+        eofs = tuple(sorted((k, v) for k, v in st.fields.get("_eof", {}).items() if k[0] == strm and k[1] >= main.pos))
+        facts = []
+        import re as _re
+        for fk, fv in list(st.bfacts.items()) + [(k, (tuple(sorted(v[0])) if v[0] is not None else None, tuple(sorted(v[1])))) for k, v in st.vfacts.items()]:
+            r = repr(fk)
+            if "#" in r:
+                continue
+            ps = [int(x) for x in _re.findall(r"'main'\), \('C', 'int', (\d+)\)", r)]
+            if ps and all(p < main.pos for p in ps):
+                continue
+            facts.append((r, fv))
+        facts.sort(key=lambda x: x[0])
+        nframes = fidx + (1 if with_frame else 0)
+        frames = tuple(tuple(sorted((k, repr(v)) for k, v in fr.items())) for fr in st.frames[:nframes])
+        consumed = any(e.kind == "consume" for e in st.events[start:])
+        tok_started = any(e.kind == "cur_token_write" for e in st.events[start:])
+        return (o.kind, repr(o.val) if o.val is not None else None, o.target, tuple(evs), nl_pending, consumed, tok_started,
+                repr(st.stack), st.base, st.below_pops, st.ckpt, st.stack_ok, la, eofs, tuple(facts), frames,
+                repr(st.nesting), repr(sorted(st.cur_token.items(), key=lambda x: x[0])) if not tok_started else None,
+                main.exact)
+
+    def prune_outs(self, outs, start, fidx, with_frame=False):
+        if not self.prune or len(outs) <= self.prune_min:
+            return outs
+        self.stats["paths_before_prune"] += len(outs)
+        seen = {}
+        kept = []
+        for o in outs:
+            sg = self.out_sig(o, start, fidx, with_frame)
+            if sg in seen:
+                self.stats["pruned"] += 1
+                continue
+            seen[sg] = True
+            kept.append(o)
+        return kept
+
     # ---- entry ------------------------------------------------------------
     def run_fn(self, name, st, args):
         """Interpret function `name` from state st with argument AVs; returns list[Out] (kinds ret/panic)."""
@@ -421,6 +539,8 @@ class Interp:
         fidx = len(st.frames) - 1
         self.fn_stack.append(name)
         try:
+            e0 = len(st.events)
+            self.stats["activations"] += 1
             self.emit(st, "enter", node, callee=name, args=list(args), depth=len(self.fn_stack))
             outs = [Out("val", UNIT, st)]
             params = b["params"]
@@ -444,7 +564,8 @@ class Interp:
                         res.append(o)
                     else:
                         raise Unanalysed("break/continue escaping function %s" % name)
-            return res
+            self.sink(res, e0, "fn", name)
+            return self.prune_outs(res, e0, fidx)
         finally:
             self.fn_stack.pop()
 
@@ -1152,9 +1273,27 @@ class Interp:
             return res
         cur, others = self.ev_list([n["l"], n["r"]], st, fidx)
         res = list(others)
+        impl = self.op_impl(n, op)
         for (a, b), s in cur:
-            res.extend(self.binop(op, a, b, s, n))
+            if impl is not None and isinstance(a, (Enum, Term)) and not isinstance(a, SLen):
+                res.extend(self.call_local(impl, [a, b], s, n))
+            else:
+                res.extend(self.binop(op, a, b, s, n))
         return res
+
+    def op_impl(self, n, op):
+        """Crate-local `impl Add/Sub/...<Rhs> for T` chosen by type-check for this binary expression."""
+        d = n.get("def")
+        if not d or op not in ("Add", "Sub", "Mul", "Div", "Rem"):
+            return None
+        lt = F.norm(n["l"].get("ty") or "")
+        rt = n["r"].get("ty") or ""
+        tr = {"Add": "std::ops::Add", "Sub": "std::ops::Sub", "Mul": "std::ops::Mul", "Div": "std::ops::Div",
+              "Rem": "std::ops::Rem"}[op]
+        name = "<%s as %s<%s>>::%s" % (lt, tr, rt, op.lower())
+        if name in self.fx.bodies:
+            return name
+        return None
 
     def binop(self, op, a, b, st, n):
         if isinstance(a, LRef):
@@ -1181,6 +1320,22 @@ class Interp:
                         return [Out("val", Const("int", v), st)]
             except TypeError:
                 pass
+        if op in ("Le", "Lt", "Ge", "Gt"):
+            from . import lea_prims
+            sa, sb = lea_prims.snap_of(a), lea_prims.snap_of(b)
+            if sa and sb and sa[0] == sb[0] and sa[1] == sb[1]:
+                # cursor snapshots are monotone in the position label
+                x, y = (sa, sb) if op in ("Le", "Lt") else (sb, sa)
+                # x (<|<=) y ?
+                if x[2] <= y[2] and x[3] <= y[3] and op in ("Le", "Ge"):
+                    return [Out("val", TRUE, st)]
+                if x[2] <= y[2] and op in ("Le", "Ge") and x[3] == 0 and y[3] < 0:
+                    mc = st.fields.get("_minc", {})
+                    if x[2] in mc and y[2] in mc and mc[y[2]] - mc[x[2]] >= -y[3]:
+                        # at least -delta one-byte-or-longer chars were consumed between the two snapshots
+                        return [Out("val", TRUE, st)]
+                if x[2] > y[2] and x[3] >= y[3] and op in ("Lt", "Gt"):
+                    return [Out("val", FALSE, st)]
         if isinstance(a, SLen) and isinstance(b, Const) and b.t == "int":
             if op == "Sub":
                 return [Out("val", SLen(a.d - b.v), st)]
@@ -1558,6 +1713,7 @@ class Interp:
     def ev_Loop(self, n, st, fidx):
         res = []
         lid = n.get("id")
+        l0 = len(st.events)
         self.emit(st, "loop_enter", n, loop=lid)
         entry_main_pos = st.cursors["main"].pos
 
@@ -1594,13 +1750,24 @@ class Interp:
                     # generic iteration reaching the back-edge again: covered by the widened state, but the
                     # path itself is kept (as a truncated path) so that per-iteration rules see its events
                     res.append(Out("loopback", None, s2))
+        if len(res) > self.prune_min and self.prune:
+            self.sink(res, l0, "loop", self.fn_stack[-1] if self.fn_stack else "?")
+            res = self.prune_outs(res, l0, fidx, with_frame=True)
         return res
 
     def widen(self, s, assigned, n, fidx):
         w = s.clone()
+        # locals assigned syntactically in the loop body live in the current frame; closures that the body
+        # may call (closure values held in any frame) assign locals of their defining frame
+        per_frame = {fidx: set(assigned)}
         for fr in w.frames:
+            for v in fr.values():
+                if isinstance(v, Closure):
+                    per_frame.setdefault(v.frame, set()).update(self.assigned_in(v.node["body"]))
+        for fi, fr in enumerate(w.frames):
+            ids = per_frame.get(fi, ())
             for lid in list(fr.keys()):
-                if lid in assigned:
+                if lid in ids:
                     v = fr[lid]
                     if isinstance(v, Obj) and v.kind == "cursor" and v.id != "main":
                         c = w.cursors.get(v.id)
@@ -1608,21 +1775,72 @@ class Interp:
                             self.jump(w, c)
                     elif isinstance(v, (Obj, Closure, FnRef)):
                         pass
+                    elif lid in self.snapshot_locals(n) and self.resnap(v, w) is not None:
+                        # the local only ever receives snapshots of the current cursor position inside the
+                        # loop: in later iterations it holds *some earlier* snapshot
+                        fr[lid] = self.resnap(v, w)
                     else:
                         fr[lid] = w.sym("loopvar", None)
         self.jump(w, w.cursors["main"])
         self.emit(w, "loop_widen", n, loop=n.get("id"))
         return w
 
+    def snapshot_locals(self, loop):
+        """Locals that, inside this loop, are only assigned `self.cur_byte_offset()` / `cur_char_offset()`."""
+        key = ("snap", id(loop))
+        if key in self.loop_assigned_cache:
+            return self.loop_assigned_cache[key]
+        good, bad = set(), set()
+        for x, par in F.walk(loop["body"]):
+            if x.get("k") in ("Assign", "AssignOp"):
+                l = strip_dt(x["l"])
+                if l.get("k") == "Path" and "local" in l.get("res", {}):
+                    lid = l["res"]["local"]
+                    r = strip_dt(x["r"]) if x.get("k") == "Assign" else None
+                    if r is not None and r.get("k") == "MethodCall" and F.norm(r.get("def")) in (
+                            "Lexer::cur_byte_offset", "Lexer::cur_char_offset"):
+                        good.add(lid)
+                    else:
+                        bad.add(lid)
+        res = good - bad
+        self.loop_assigned_cache[key] = res
+        return res
+
+    def resnap(self, v, w):
+        """Rebuild snapshot value v at a position label strictly before the next widened head."""
+        from . import lea_prims
+        sn = lea_prims.snap_of(v)
+        if sn is None or sn[3] != 0:
+            return None
+        j = w.fields.get("_jump", 0) + 1
+        p = j * 100000 - 50000
+        mc = dict(w.fields.get("_minc", {}))
+        mc[p] = mc.get(w.cursors["main"].pos, 0)
+        w.fields["_minc"] = mc
+        if sn[0] == "byte" and isinstance(v, Enum):
+            return Enum(v.path, [Term("bin:Sub", (Term("source_len", (), "u32"),
+                                                  Term("remaining_len", (Const("str", sn[1]), Const("int", p)), "u32")), "u32")])
+        if sn[0] == "char" and isinstance(v, Enum):
+            return Enum(v.path, [Term("char_offset", (Const("str", sn[1]), Const("int", p)), "u32")])
+        return None
+
     def jump(self, st, cur):
+        old = cur.pos
         st.fields["_jump"] = st.fields.get("_jump", 0) + 1
         cur.pos = st.fields["_jump"] * 100000
         cur.exact = False
+        if cur.id == "main":
+            mc = dict(st.fields.get("_minc", {}))
+            mc[cur.pos] = mc.get(old, 0)
+            st.fields["_minc"] = mc
 
     def widen_sig(self, w, fidx, assigned):
         ev_sig = tuple((e.kind, e.site) for e in w.events if e.kind in (
             "push", "pop", "ckpt", "emit", "error", "pending", "nesting", "stack_insert", "stack_truncate", "mode_update"))
-        return (ev_sig, w.ckpt, len(w.stack), w.below_pops, tuple(sorted((k, v) for k, v in w.bfacts.items() if isinstance(v, bool)))[:0])
+        loc = tuple(tuple(sorted((k, repr(v.key()) if hasattr(v, "key") else repr(v)) for k, v in fr.items()
+                                 if not (isinstance(v, Term) and v.op.startswith("loopvar#"))))
+                    for fr in w.frames)
+        return (ev_sig, w.ckpt, len(w.stack), w.below_pops, loc)
 
     # ---- calls --------------------------------------------------------------------
     def ev_Call(self, n, st, fidx):
